@@ -1478,6 +1478,30 @@ impl<'a> Visitor<'a, '_, Error> for JSONValidator<'a> {
       }
     }
 
+    // The controlled value must itself be an instance of the target type
+    // before a comparison or size control is applied to it (RFC 8610 3.8)
+    if let Type2::Typename { ident, .. } = target {
+      if matches!(
+        ctrl,
+        ControlOperator::EQ
+          | ControlOperator::NE
+          | ControlOperator::LT
+          | ControlOperator::LE
+          | ControlOperator::GT
+          | ControlOperator::GE
+          | ControlOperator::SIZE
+      ) && !matches!(self.json, Value::Array(_) | Value::Object(_))
+        && (is_ident_string_data_type(self.state.cddl, ident)
+          || is_ident_numeric_data_type(self.state.cddl, ident))
+      {
+        let error_count = self.errors.len();
+        self.visit_identifier(ident)?;
+        if self.errors.len() != error_count {
+          return Ok(());
+        }
+      }
+    }
+
     match ctrl {
       ControlOperator::EQ => match target {
         Type2::Typename { ident, .. } => {
